@@ -14,6 +14,10 @@ RULE = ("meshes are built directly as draco::Mesh objects (grids with holes, tor
         "num_faces(); seq/pc/api = identity counts. A case is distinct by its text; eb/rv/fc cases with at least one non-isolated "
         "vertex or face count as non-trivial, seq/pc/api cases are trivial by nature and are not counted")
 
+# the Edgebreaker connectivity encoder model: count identities (symbols, split symbols, declared vertices/faces) and the executable
+# encoder->decoder round trip (the tie of the open hypothesis H_conn) are part of this check
+SUBCHECKS = ["EBENC"]
+
 def corr_runs(ctx):
     return [dict(tag="h_C09", harness="C09", driver="C09", args=[ctx.tier, ctx.seed],
                  needs_vo=["Model/Fans.vo", "Base/DriverSupport.vo"])]
